@@ -103,9 +103,9 @@ PROPS = {
     {"name": "rel", "flavor": "asan-rel", "monitor": "C07", "cases": {"quick": 400, "thorough": 6000}, "case_timeout": 180},
   ],
   "nontrivial": {"fn": lambda js: cnt(js, "c07.inputs") >= 50 and (cnt(js, "c07.ovmb.rejected") + cnt(js, "c07.ascii.rejected")) >= 5,
-                 "text": "case = one generated valid file (OVMB and ASCII alternate; poly/tet/hex; persistent properties of random codecs) and 100 inputs derived from it: the file itself, empty input, random bytes, two files concatenated, then 1-3 stacked mutations each - OVMB: every numeric field of file header / chunk header / VERT, TOPO, PROP sub-headers / DIRP bytes / payload words replaced by one of 22 boundary values (0,1,..,255,256,65535,65536,2^31-1,2^31,2^32-1,2^32,2^63-1,2^63,2^64-1) or a small number; payload shortened/extended against its declared length; length fields adjusted; chunks dropped, duplicated, spliced from another file; bit flips, inserts, deletes, truncation. ASCII: lines/tokens dropped, repeated, replaced by non-numeric text, negative numbers, huge counts, section names, property headers of other kinds/types. Each input is read with random topology_check / incidence options into a random mesh type. Any sanitizer report, libstdc++ assertion, abort, non-standard exception or watchdog timeout is a violation; on success every stored handle must designate an existing entity and every tracked property must have one element per entity (+cache shape when incidences were requested). non-trivial = >=50 inputs with >=5 rejections; distinct by operation digest"},
+                 "text": "case = one generated valid file (OVMB and ASCII alternate; poly/tet/hex; persistent properties of random codecs) and 100 inputs derived from it: the file itself, empty input, random bytes, two files concatenated, then 1-3 stacked mutations each - OVMB: every numeric field of file header / chunk header / VERT, TOPO, PROP sub-headers / DIRP bytes / payload words replaced by one of 22 boundary values (0,1,..,255,256,65535,65536,2^31-1,2^31,2^32-1,2^32,2^63-1,2^63,2^64-1) or a small number; payload shortened/extended against its declared length; length fields adjusted; chunks dropped, duplicated, spliced from another file; bit flips, inserts, deletes, truncation. Every second OVMB base file is a re-encoding by the independent encoder (arrays split over 1-4 chunks, wider integers, handle offsets, unknown chunks, other chunk orders); a quarter of the OVMB inputs are hostile re-encodings with (mostly exactly one) structural inconsistency whose payload matches its declared count: a span that overlaps / overshoots / leaves a gap / is repeated / out of order, or a VERT/TOPO sub-header whose valence, valence_encoding, handle_encoding (variable vs fixed, none / valid / invalid) contradicts the payload layout (as laid out, dropped, valence table only, handles only). ASCII: lines/tokens dropped, repeated, replaced by non-numeric text, negative numbers, huge counts, section names, property headers of other kinds/types. Each input is read with random topology_check / incidence options into a random mesh type. Any sanitizer report, libstdc++ assertion, abort, non-standard exception or watchdog timeout is a violation; on success every stored handle must designate an existing entity and every tracked property must have one element per entity (+cache shape when incidences were requested). non-trivial = >=50 inputs with >=5 rejections; distinct by operation digest"},
   "floor": {"quick": 100, "thorough": 3000},
-  "min_counts": {"c07.inputs.ovmb": 8000, "c07.inputs.ascii": 8000, "validity-walks": 2000, "c07.ovmb.rejected": 3000, "c07.ascii.rejected": 1000},
+  "min_counts": {"c07.inputs.ovmb": 8000, "c07.inputs.ascii": 8000, "validity-walks": 2000, "c07.ovmb.rejected": 3000, "c07.ascii.rejected": 1000, "c07.inputs.hostile-spans": 1500},
   "assumptions": COMMON_ASSUME + ["allocation requests above 256 MiB throw std::bad_alloc (harness operator new), which the statement allows as a way of reporting failure", "counts between 70 000 and 2^31 in ASCII files are not generated (they only make the run long)"],
  },
  "C08": {
@@ -229,9 +229,9 @@ PROPS = {
     {"name": "rel", "flavor": "asan-rel", "monitor": "C18", "cases": {"quick": 60, "thorough": 1500}, "case_timeout": 900},
   ],
   "nontrivial": {"fn": lambda js: cnt(js, "c18.truncations") >= 48 and cnt(js, "c18.faults") >= 200,
-                 "text": "case = one valid OVMB file produced by the writer from a generated poly/tet/hex mesh with 1-4 persistent properties (few hundred bytes to a few KiB). Faults enumerated per file: (a) all prefixes 0..size-1; (b) every byte of the file header, of every chunk header, of the VERT/TOPO/PROP sub-headers, the first DIRP bytes, all padding bytes and some payload bytes replaced by 15 boundary values (quick: 260 sampled positions; thorough: all) - a mutant is judged only if the independent ksy-based decoder rejects it (i.e. it is inconsistent by the published description); (c) every chunk dropped, every chunk duplicated, every pair of chunks swapped, an unknown mandatory chunk spliced in; (d) the input stream stops delivering at byte k (short read / exception) for every k (quick: ~150 positions per file); (e) the output stream accepts only k bytes for every k. Every judged fault must yield a result other than Ok. non-trivial = >=48 truncations and >=200 judged faults in the case; distinct by file digest"},
+                 "text": "case = one valid OVMB file produced by the writer from a generated poly/tet/hex mesh with 1-4 persistent properties (few hundred bytes to a few KiB). Faults enumerated per file: (a) all prefixes 0..size-1; (b) every byte of the file header, of every chunk header, of the VERT/TOPO/PROP sub-headers, the first DIRP bytes, all padding bytes and some payload bytes replaced by 15 boundary values (quick: 260 sampled positions; thorough: all) - a mutant is judged only if the independent ksy-based decoder rejects it (i.e. it is inconsistent by the published description); (c) every chunk dropped, every chunk duplicated, every pair of chunks swapped, an unknown mandatory chunk spliced in; (c2) 16 (thorough 60) re-encodings of the same content by the independent encoder with arrays split over several chunks and (mostly exactly one) inconsistency whose payload matches its declared count - a span that overlaps / overshoots / leaves a gap / is repeated / out of order, or a sub-header contradicting its payload layout - judged like (b); (d) the input stream stops delivering at byte k (short read / exception) for every k (quick: ~150 positions per file); (e) the output stream accepts only k bytes for every k. Every judged fault must yield a result other than Ok. non-trivial = >=48 truncations and >=200 judged faults in the case; distinct by file digest"},
   "floor": {"quick": 30, "thorough": 800},
-  "min_counts": {"c18.truncations": 20000, "c18.substitutions": 50000, "c18.chunk-edits": 1000, "c18.read-faults": 5000, "c18.write-faults": 3000},
+  "min_counts": {"c18.truncations": 20000, "c18.substitutions": 50000, "c18.chunk-edits": 1000, "c18.read-faults": 5000, "c18.write-faults": 3000, "c18.span-edits": 300},
   "assumptions": COMMON_ASSUME + ["a mutated file is called inconsistent only when the reference decoder (harness/ovmb_ref.hh, from ovmb.ksy + documentation) rejects it; compression and file_version bytes are not judged"],
  },
  "C19": {
@@ -242,9 +242,9 @@ PROPS = {
     {"name": "geo", "flavor": "asan-dbg", "monitor": "C19", "sub": "geo", "cases": {"quick": 300, "thorough": 5000}},
   ],
   "nontrivial": {"fn": lambda js: cnt(js, "vec.pairs") >= 100 or (cnt(js, "geo.faces") >= 3 and cnt(js, "geo.halfedges") >= 6),
-                 "text": "part vec: dims 2,3,4 x {int, unsigned, float, double}. Integer types: ALL ordered pairs over the lattice {-3..3}^DIM resp. {0..6}^DIM, chunked by first vector (quick: dims 2 and 3 complete, dim 4 sampled chunks; thorough: all three dims complete = 49+117649+5764801 pairs per type); floating types: random magnitudes over 60 binades + specials (0,-0, denormals, 1e17, 1e150, equal components, equal vectors). Every pair is pushed through + - * / (vector and scalar, in-place forms), unary minus, ==, !=, lexicographic <, |, dot, %, cross, sqrnorm, norm, length, normalize/normalized/normalize_cond, max/min/max_abs/min_abs/l1_norm/l8_norm/mean/mean_abs, minimize/maximize/minimized/maximized/min/max, converting constructor/assignment, << >> round trip, swap, vectorized; exact for integers, 8 ulp-scaled for floats. part geo: random meshes (tets, square/pentagonal pyramids, prisms, octahedra + free polygons, positions with mixed magnitudes): vector/length/barycenter (edge, face, cell), halfface normal vs formula (well-conditioned faces), triangle normals of the two sides opposite, NormalAttrib face/halfface/vertex normals. non-trivial = >=100 pairs or >=3 faces and >=6 halfedges checked; distinct by chunk / mesh digest"},
+                 "text": "part vec: dims 2,3,4 x {int, unsigned, float, double}. Integer types: ALL ordered pairs over the lattice {-3..3}^DIM resp. {0..6}^DIM, chunked by first vector (quick: dims 2 and 3 complete, dim 4 sampled chunks; thorough: all three dims complete = 49+117649+5764801 pairs per type); floating types: random magnitudes over 60 binades + specials (0,-0, denormals, 1e17, 1e150, equal components, equal vectors). Every pair is pushed through + - * / (vector and scalar, in-place forms), unary minus, ==, !=, lexicographic <, |, dot, %, cross, sqrnorm, norm, length, normalize/normalized/normalize_cond, max/min/max_abs/min_abs/l1_norm/l8_norm/mean/mean_abs, minimize/maximize/minimized/maximized/min/max, converting constructor/assignment, << >> round trip, swap, vectorized; exact for integers, 8 ulp-scaled for floats. Every fourth sub-case: MIXED scalar types - the 12 ordered pairs of distinct scalar types x dims 2,3,4: dot/cross (result in the common type), + - * / between VectorT<A> and VectorT<B> and with a scalar of type B (result VectorT<A>), compound forms, converting construction, against the scalar C++ expression on the components (half of the pairs with values that make every intermediate exact, half with arbitrary values and an 8-ulp bound in the common type). part geo: random meshes (tets, square/pentagonal pyramids, prisms, octahedra + free polygons, positions with mixed magnitudes): vector/length/barycenter (edge, face, cell), halfface normal vs formula (well-conditioned faces), triangle normals of the two sides opposite, NormalAttrib face/halfface/vertex normals. non-trivial = >=100 pairs or >=3 faces and >=6 halfedges checked; distinct by chunk / mesh digest"},
   "floor": {"quick": 300, "thorough": 3000},
-  "min_counts": {"vec.pairs": 500000, "geo.normals": 2000, "geo.opposite-normals": 500, "geo.cells": 200, "geo.cells.non-simplicial": 50},
+  "min_counts": {"vec.pairs": 500000, "geo.normals": 2000, "geo.opposite-normals": 500, "geo.cells": 200, "geo.cells.non-simplicial": 50, "vec.mixed-pairs": 50000},
   "assumptions": COMMON_ASSUME + ["floating-point results are compared within 8 ulp of the operation's magnitude; values whose squares overflow are excluded", "apply() is not named by the property and not judged"],
  },
  "C20": {
